@@ -227,10 +227,17 @@ class Enc:
     def va(self, ty, elems, layout, note=""):
         """layout: ("plain",) | ("rle", [run lengths]) | ("bit",)"""
         kind = layout[0]
-        self.u8({"plain": 1, "rle": 2, "bit": 3}[kind], "encoding", note)
+        self.u8({"plain": 1, "rle": 2, "bit": 3, "rawrle": 2}[kind], "encoding", note)
         self.u8(BOOL if kind == "bit" else ty, "vatype", note + " " + kind)
         if kind == "plain":
             self.arr(ty, elems, note)
+        elif kind == "rawrle":
+            # ("rawrle", row count, run bytes, values): no consistency between the three (hostile input)
+            _, rowcount, runbytes, vals = layout
+            self.i32(rowcount, "rowcount", note + " rle")
+            self.i32(len(runbytes), "arrcount", note)
+            for r in runbytes: self.f("run", bytes([r & 255]))
+            self.arr(ty, vals, note)
         elif kind == "rle":
             runs = layout[1]
             self.i32(len(elems), "rowcount", note + " rle")
@@ -290,7 +297,9 @@ def encode_table(t, layouts=None, be=False, name_order=None, unused=(), with_end
     e.sec(2, "tablemeta")
     e.i32(len(t["tmeta"]), "entrycount")
     for (nm, ty, val, dflt) in t["tmeta"]:
-        e.string(nm, "tmeta-name"); e.u8(ty, "mdtype", "tmeta"); e.u8(1, "tflag", "value"); e.obj1(ty, val, "tmeta-value")
+        e.string(nm, "tmeta-name"); e.u8(ty, "mdtype", "tmeta")
+        if val is None: e.u8(0, "tflag", "value")
+        else: e.u8(1, "tflag", "value"); e.obj1(ty, val, "tmeta-value")
         if dflt is None: e.u8(0, "tflag", "default")
         else: e.u8(1, "tflag", "default"); e.obj1(ty, dflt, "tmeta-default")
     cols = t["cols"]
